@@ -382,8 +382,8 @@ fn main() {
                         wait_safe_second();
                     }
                     let sec0 = unix_now();
-                    r.restamp();
                     let t0 = Instant::now();
+                    r.restamp();
                     let c = &r.cfg;
                     let res = catch_unwind(AssertUnwindSafe(|| -> Out {
                         let name = t[2];
@@ -418,6 +418,8 @@ fn main() {
                             }
                         }
                     }));
+                    // the snapshot reads entry ages against the clock too: it belongs to the timed window
+                    let s = r.snapshot(tl.as_ref());
                     let took = t0.elapsed();
                     let sec1 = unix_now();
                     let res = match res {
@@ -440,7 +442,6 @@ fn main() {
                         Out::Unit => writeln!(out, "R unit").unwrap(),
                         Out::Panic(m) => writeln!(out, "R panic {}", m).unwrap(),
                     }
-                    let s = r.snapshot(tl.as_ref());
                     write_snap(&mut out, &s);
                     if bad_time {
                         writeln!(out, "W timing").unwrap();
